@@ -21,6 +21,7 @@ def main():
     args = sys.argv[1:]
     tier = 'quick'
     also = []
+    only = None
     ids = []
     i = 0
     while i < len(args):
@@ -28,6 +29,8 @@ def main():
             tier = args[i + 1]; i += 2
         elif args[i] == '--also':
             also = args[i + 1].split(','); i += 2
+        elif args[i] == '--only':
+            only = args[i + 1].split(','); i += 2
         else:
             ids.append(args[i]); i += 1
     seeds = sorted(d for d in os.listdir(os.path.join(VERIF, 'seeded')) if re.match(r'C\d+_\d+$', d))
@@ -38,7 +41,7 @@ def main():
     for s in seeds:
         d = os.path.join(VERIF, 'seeded', s)
         pid = s.split('_')[0]
-        if not os.path.exists(os.path.join(VERIF, 'vm', pid.lower() + '.py')):
+        if only is None and not os.path.exists(os.path.join(VERIF, 'vm', pid.lower() + '.py')):
             print('%s: no check for %s yet' % (s, pid)); continue
         metap = os.path.join(d, 'meta.json')
         meta = json.load(open(metap)) if os.path.exists(metap) else {}
@@ -47,7 +50,7 @@ def main():
             print('%s: patch does not apply: %s' % (s, r.stdout[:200])); sh('git checkout -- . && git clean -fdq -e coverage', cwd=REPO); continue
         try:
             results = meta.get('detection', {})
-            for cid in [pid] + also:
+            for cid in (only if only else [pid] + also):
                 r = sh('./check %s --tier %s' % (cid, tier), cwd=VERIF)
                 sigs = [l.strip().split(' :: ')[0] for l in r.stdout.splitlines() if l.startswith('  C')]
                 results['%s:%s' % (cid, tier)] = {'rc': r.returncode, 'new_signatures': sigs[:8]}
